@@ -84,7 +84,11 @@ def ob_admission(report):
         admit = [r for r in conn_ok if any(e.kind == 'ADMIT' for e in r.events)]
         reject = [r for r in conn_ok if not any(e.kind == 'ADMIT' for e in r.events) and r.tag == 'return' and not any(e.kind == 'elapsed' for e in r.events)]
         late = [r for r in conn_ok if not any(e.kind == 'ADMIT' for e in r.events) and r.tag == 'return' and any(e.kind == 'elapsed' for e in r.events)]
-        other = [r for r in conn_ok if r.tag != 'return']
+        def _real(r):
+            # a path that needs a collection to hold >= 2^62 elements (overflow of `len + 1` and the like) does not exist
+            lens = [v for c in r.pc for v in e2.z3vars(c) if z3.is_bv(v) and v.size() == 64 and re.match(r'len[<(]', str(v))]
+            return not lens or ex.feasible(r.pc + [z3.ULT(v, z3.BitVecVal(1 << 62, 64)) for v in lens])
+        other = [r for r in conn_ok if r.tag != 'return' and not poison_panic(r) and _real(r)]
         if not admit or not reject:
             return ob.done(exs, 'inconclusive', f'vacuity: admit paths={len(admit)} reject paths={len(reject)}', paths=len(res))
         if other:
